@@ -64,6 +64,19 @@ var extPreds = []struct {
 	{"contains-NUL", func(b []byte, _ uint32) bool { return bytes.IndexByte(b, 0) >= 0 }},
 	{"empty", func(b []byte, _ uint32) bool { return len(b) == 0 }},
 	{"limit-is-0", func(_ []byte, l uint32) bool { return l == 0 }},
+	// a detector is arbitrary user code: this one changes the global read limit
+	// while the walk is in progress and rejects. The walk must go on with the
+	// limit it started with (index 8; not part of the C14 alphabet).
+	{"side-effect-SetLimit(0)-rejects", func(_ []byte, _ uint32) bool {
+		mimetype.SetLimit(0)
+		limitKnown = false
+		return false
+	}},
+	{"side-effect-SetLimit(5)-rejects", func(_ []byte, _ uint32) bool {
+		mimetype.SetLimit(5)
+		limitKnown = false
+		return false
+	}},
 }
 
 var extAttach = []string{"root-pkg", "root-lookup", "text/plain", "application/zip", "application/json", "text/xml", "image/png", "application/pdf", "prev-ext"}
